@@ -185,3 +185,24 @@ def _cfg_c(m, ob):
 @builder('Config.parse_buffer_config')
 def _cfg_b(m, ob):
     return _config_replay(m, ob, 'buffer')
+
+
+# ---------------------------------------------------------------------------------------------------- planner (C14)
+def _plan_queries(m, ob):
+    import networkx as nx
+    from topsim.core.planner import WorkflowPlan, WorkflowStatus
+    g = nx.DiGraph()
+    g.add_edges_from([('a', 'b'), ('a', 'c'), ('b', 'd'), ('c', 'd')])
+    g.add_node('e')
+    plan = WorkflowPlan('obs', 0, -1, [], list(g.nodes), WorkflowStatus.SCHEDULED, None, g)
+    bad = []
+    for t in g.nodes:
+        if sorted(plan.get_task_predecessors(t)) != sorted(g.predecessors(t)):
+            bad.append(f"get_task_predecessors({t!r}) = {sorted(plan.get_task_predecessors(t))}, graph says {sorted(g.predecessors(t))}")
+        if sorted(plan.get_task_successors(t)) != sorted(g.successors(t)):
+            bad.append(f"get_task_successors({t!r}) = {sorted(plan.get_task_successors(t))}, graph says {sorted(g.successors(t))}")
+    return dict(violated=bool(bad), graph="diamond a->b,c->d plus isolated e", observed=bad[:4])
+
+
+BUILDERS['WorkflowPlan.get_task_predecessors'] = _plan_queries
+BUILDERS['WorkflowPlan.get_task_successors'] = _plan_queries
